@@ -92,6 +92,10 @@ func Centroid(g geom.Geom) (geom.Point, error) {
 	var A, xA, yA float64
 	switch g.(type) {
 	case geom.Polygon:
+		if s, o, e, ok := centroidFrame(g.(geom.Polygon)); ok {
+			c, err := Centroid(s)
+			return geom.Point{X: o.X + math.Ldexp(c.X, e), Y: o.Y + math.Ldexp(c.Y, e)}, err
+		}
 		for _, r := range g.(geom.Polygon) {
 			a := area(r)
 			// The sums are formed from coordinates relative to the first
@@ -424,4 +428,34 @@ func Distance(a, b geom.Geom) float64 {
 	default:
 		panic("only points are currently supported")
 	}
+}
+
+// centroidFrame returns, for a polygon whose extent lies beyond 1e100 or below
+// 1e-100, a copy relative to its first vertex o and scaled by 2^-e (exact),
+// whose extent is between 1/2 and 1: the cubic sums of Centroid overflow or
+// underflow for the original (see geom.Polygon.Centroid). The centroid of the
+// original is o + 2^e * (centroid of the copy).
+func centroidFrame(p geom.Polygon) (scaled geom.Polygon, o geom.Point, e int, ok bool) {
+	first := true
+	var ext float64
+	for _, r := range p {
+		for _, pt := range r {
+			if first {
+				o, first = pt, false
+			}
+			ext = math.Max(ext, math.Max(math.Abs(pt.X-o.X), math.Abs(pt.Y-o.Y)))
+		}
+	}
+	if first || ext == 0 || math.IsInf(ext, 0) || math.IsNaN(ext) || (ext < 1e100 && ext > 1e-100) {
+		return nil, o, 0, false
+	}
+	_, e = math.Frexp(ext)
+	scaled = make(geom.Polygon, len(p))
+	for j, r := range p {
+		scaled[j] = make(geom.Path, len(r))
+		for k, pt := range r {
+			scaled[j][k] = geom.Point{X: math.Ldexp(pt.X-o.X, -e), Y: math.Ldexp(pt.Y-o.Y, -e)}
+		}
+	}
+	return scaled, o, e, true
 }
